@@ -207,7 +207,8 @@ class C15(object):
         return {"entry": "find_ND_labels", "n": n, "kind": kind, "edges": E, "props": props, "nfrm": nfrm,
                 "omega": [round(rnd.uniform(-180, 180), 3) for _ in range(nfrm)],
                 "dty": [round(rnd.uniform(-5, 5), 3) for _ in range(nfrm)],
-                "scale": None if rnd.random() < 0.5 else [round(rnd.uniform(0.5, 2.0), 3) for _ in range(nfrm)],
+                # per-frame monitor scale; exactly 0.0 on a frame where the beam was off
+                "scale": None if rnd.random() < 0.5 else [0.0 if rnd.random() < 0.15 else round(rnd.uniform(0.5, 2.0), 3) for _ in range(nfrm)],
                 "T": T, "chunking": rnd.choice(["static", "static", "random"]), "cseed": rnd.getrandbits(32),
                 "strategy": rnd.choice(["random", "random", "pct", "rr", "rtc"]), "p_inv": rnd.choice([1, 2, 4, 16, 64]),
                 "quantum": rnd.choice([1, 2, 5]), "pct_d": rnd.choice([1, 2, 3]), "sseed": rnd.getrandbits(48),
@@ -484,6 +485,8 @@ class C15(object):
                        "omega": (om[mem] * w[mem]).sum() / w[mem].sum(), "dty": (dy[mem] * w[mem]).sum() / w[mem].sum()}
                 for k, v in exp.items():
                     got = mg[k][c]
+                    if w[mem].sum() == 0 and k in ("s_raw", "f_raw", "omega", "dty"):
+                        continue        # all members sit on frames of scale 0: an intensity-weighted mean is not defined
                     if not abs(got - v) <= 1e-10 * max(1.0, abs(v)):
                         viol = V("merged-property-differs", "merged peak %d (%d members): %s is %r, members give %r (%s, omega/dty "
                                                             "layout %s)" % (c, int(mem.sum()), k, float(got), float(v), which, desc.get("layout", "1d")))
